@@ -55,6 +55,8 @@ struct FileSpec {
     items: Vec<ItemStanza>,
 }
 
+thread_local! { static SHAPES: std::cell::RefCell<BTreeMap<String, (usize, usize)>> = std::cell::RefCell::new(BTreeMap::new()); }
+thread_local! { static SHAPES_OUT: std::cell::RefCell<BTreeMap<String, (usize, usize)>> = std::cell::RefCell::new(BTreeMap::new()); }
 thread_local! { static FORCE_DEMOTE: std::cell::RefCell<Vec<String>> = std::cell::RefCell::new(vec![]); }
 thread_local! { static LOST: std::cell::RefCell<Vec<String>> = std::cell::RefCell::new(vec![]); }
 fn lost(msg: String) {
@@ -835,13 +837,41 @@ fn pass2(fs_: &FileSpec, text1: &str, is_root: bool, map: &mut Vec<BTreeMap<Stri
             }
         }
         for f in &sel {
+            {
+                let mut sh = BodyShape::default();
+                sh.visit_block(f.block);
+                let key = format!("{}|{}|{}", fs_.file, st.selector, f.name);
+                SHAPES_OUT.with(|m| m.borrow_mut().insert(key.clone(), (sh.loops.len(), sh.closures.len())));
+                let expected = SHAPES.with(|m| m.borrow().get(&key).cloned());
+                if let Some((l, c)) = expected {
+                    if (l, c) != (sh.loops.len(), sh.closures.len()) {
+                        FORCE_DEMOTE.with(|fd| {
+                            if !fd.borrow().contains(&key) {
+                                fd.borrow_mut().push(key.clone());
+                            }
+                        });
+                    }
+                }
+            }
             let ftags = f.stanza.map(|s| s.tags.join(",")).unwrap_or_default();
             let mut fr = base("fn-range", None, &f.name, &ftags);
             fr.insert("has_stanza".into(), f.stanza.is_some().to_string());
             fn_ranges.push((f.whole_start, f.whole_end, fr));
             let stanza = match f.stanza {
                 Some(s) => s,
-                None => continue,
+                None => {
+                    // a function verified without any annotation (e.g. a ToTokens impl checked against the
+                    // trait-level contract) can still be demoted when Verus rejects a construct in it
+                    let key = format!("{}|{}|{}", fs_.file, st.selector, f.name);
+                    if FORCE_DEMOTE.with(|fd| fd.borrow().contains(&key)) {
+                        lost(format!(
+                            "UNSUPPORTED {} item `{}` fn {}: shape changed or Verus rejected a construct in this function => fn demoted to external_body (its obligations are undecided) [tags={}]",
+                            fctx, st.selector, f.name, tags
+                        ));
+                        edits.ins(f.whole_start, "#[verifier::external_body] ".to_string(), base("demoted", None, &f.name, &ftags));
+                    }
+                    continue;
+                }
             };
             let cctx = format!("{} fn {}", ictx, f.name);
             let mut shape = BodyShape::default();
@@ -856,7 +886,7 @@ fn pass2(fs_: &FileSpec, text1: &str, is_root: bool, map: &mut Vec<BTreeMap<Stri
             let forced = FORCE_DEMOTE.with(|fd| fd.borrow().contains(&forced_key));
             let res = std::panic::catch_unwind(std::panic::AssertUnwindSafe(|| {
                 if forced {
-                    fail(&format!("UNSUPPORTED {}: Verus rejected a construct in this function, or the N2 side condition (no early exit after a Punctuator declaration) does not hold", cctx));
+                    fail(&format!("UNSUPPORTED {}: the function's shape (loops / closures) differs from the one its proof was written for, or Verus rejected a construct in it, or the N2 side condition does not hold", cctx));
                 }
             for d in &stanza.dirs {
                 let k = d.kind.as_str();
@@ -1112,6 +1142,22 @@ fn cmd_assemble(args: &BTreeMap<String, String>) {
     let unit = args.get("unit").cloned().unwrap_or_else(|| "all".to_string());
     let demote: Vec<String> = args.get("demote").map(|d| d.split(';').filter(|x| !x.is_empty()).map(|x| x.to_string()).collect()).unwrap_or_default();
     FORCE_DEMOTE.with(|f| *f.borrow_mut() = demote);
+    // shapes.lock: the number of loops and closures each function under contract had when its proof was written;
+    // a function whose shape differs on the tree being checked is demoted (its proof cannot be attached)
+    let lock_path = cdir.join("shapes.lock");
+    if let Ok(t) = fs::read_to_string(&lock_path) {
+        SHAPES.with(|m| {
+            let mut m = m.borrow_mut();
+            for line in t.lines() {
+                let parts: Vec<&str> = line.rsplitn(3, ' ').collect();
+                if parts.len() == 3 {
+                    if let (Ok(c), Ok(l)) = (parts[0].parse::<usize>(), parts[1].parse::<usize>()) {
+                        m.insert(parts[2].to_string(), (l, c));
+                    }
+                }
+            }
+        });
+    }
 
     let mut specs: BTreeMap<String, FileSpec> = BTreeMap::new();
     let mut vs: Vec<_> = fs::read_dir(&cdir).unwrap_or_else(|e| die(&format!("{:?}: {}", cdir, e))).filter_map(|e| e.ok()).map(|e| e.path()).filter(|p| p.extension().map(|x| x == "vspec").unwrap_or(false)).collect();
@@ -1184,6 +1230,13 @@ fn cmd_assemble(args: &BTreeMap<String, String>) {
     }
     j.push_str(" ]\n}\n");
     fs::write(outdir.join("map.json"), j).unwrap();
+    let mut sl = String::new();
+    SHAPES_OUT.with(|m| {
+        for (k, (l, c)) in m.borrow().iter() {
+            sl.push_str(&format!("{} {} {}\n", k, l, c));
+        }
+    });
+    fs::write(outdir.join("shapes.current"), sl).unwrap();
 }
 
 fn cmd_extract(args: &BTreeMap<String, String>) {
